@@ -5,7 +5,30 @@ mode 'nest': run nested Parallel calls and report pids / thread ids / inner back
 import sys, os, json, time, threading, warnings
 
 
+def fake_quota(halves):
+    """the CPU bandwidth quota of the control group as loky reads it (/sys/fs/cgroup/cpu.max, cgroup v2): this sandbox has no such
+    file, the two calls that look at it are answered here"""
+    import builtins
+    name = "/sys/fs/cgroup/cpu.max"
+    real_exists, real_open = os.path.exists, builtins.open
+    if not halves:
+        os.path.exists = real_exists if not hasattr(real_exists, "_verif") else real_exists._verif[0]
+        return
+    text = "%d 100000\n" % (halves * 50000)
+
+    def exists(p):
+        return True if p == name else real_exists(p)
+
+    def open_(p, *a, **k):
+        if p == name:
+            import io
+            return io.StringIO(text)
+        return real_open(p, *a, **k)
+    os.path.exists = exists; builtins.open = open_
+
+
 def table(job):
+    fake_quota(job.get("quota", 0))
     os.sched_setaffinity(0, set(range(job["aff"])))
     if job["env"]: os.environ["LOKY_MAX_CPU_COUNT"] = str(job["env"])
     else: os.environ.pop("LOKY_MAX_CPU_COUNT", None)
@@ -100,9 +123,15 @@ def gate_seq(job):
 
 def _gate_seq_calls(job, out, p_shared):
     from joblib import Parallel, delayed
-    for k, nj in enumerate(job["history"]):
+    for k, (nj, has_tasks) in enumerate(job["history"]):
         d = os.path.join(job["dir"], "c%d" % k); os.makedirs(d, exist_ok=True)
         res = {"n_jobs": nj}
+        if not has_tasks:
+            # a call that submits nothing: the backend is set up (the executor fetched and sized), no task ever reaches it
+            bk0 = {} if job.get("inner_threads") else {"backend": job["backend"]}
+            r0 = Parallel(n_jobs=nj, **bk0)(delayed(gated_task)(d, i) for i in range(0))
+            res.update(high_water=0, pids_at_high_water=0, ok=r0 == [], empty=True)
+            out.append(res); continue
 
         def driver(d=d, res=res):
             last = -1; since = time.time(); t0 = time.time()
